@@ -243,6 +243,33 @@ func related(tree *jsonv.Value, q doctree.Path, m *mutate.Mutant) (bool, string)
 	if mention {
 		return true, "mentions"
 	}
+	// the reported node lies at or below the target of a reference held by the object the fault lives in: a
+	// parameter whose explode is broken and whose schema is {$ref: X} may be reported at X's type (the diagnostic
+	// "invalid type:style:explode combination" names all three)
+	if len(fo) >= 2 {
+		if obj := doctree.At(tree, doctree.Path(fo[:len(fo)-1])); obj != nil {
+			related := false
+			cnt := 0
+			obj.Walk(func(x *jsonv.Value) {
+				if cnt > 400 || x.Kind != jsonv.Object {
+					return
+				}
+				cnt++
+				if rv := x.Get("$ref"); rv != nil && rv.Kind == jsonv.String && strings.HasPrefix(rv.Str, "#/") {
+					var target doctree.Path
+					for _, tok := range strings.Split(rv.Str[2:], "/") {
+						target = append(target, strings.ReplaceAll(strings.ReplaceAll(tok, "~1", "/"), "~0", "~"))
+					}
+					if isPrefix(target, q) {
+						related = true
+					}
+				}
+			})
+			if related {
+				return true, "below-reference-target-of-the-same-object"
+			}
+		}
+	}
 	return false, "unrelated"
 }
 
